@@ -233,6 +233,9 @@ pub enum Cmd {
     SetPair(u8, u16),
     /// the host stalls for that many milliseconds (the model has no clock: a no-op there)
     Nap(u32),
+    /// register sweep: one step from the installed state for every value of 16-bit register `which`
+    /// (0 BC 1 DE 2 HL 3 IX 4 IY 5 SP 6 PC 7 AF) in block `blk` of `nblk`; flag hash under `fmask`
+    SWR { which: u8, blk: u32, nblk: u32, fmask: u8 },
 }
 
 impl Cmd {
@@ -265,6 +268,7 @@ impl Cmd {
             Cmd::SetPair(w, v) => format!("SP16 {} {:04X}", w, v),
             Cmd::SF(n8) => format!("SF {:X}", n8),
             Cmd::Nap(ms) => format!("NAP {:X}", ms),
+            Cmd::SWR { which, blk, nblk, fmask } => format!("SWR {:X} {:X} {:X} {:02X}", which, blk, nblk, fmask),
             Cmd::Sync | Cmd::SetPC(_) | Cmd::Singles { .. } => "<runtime>".into(),
         }
     }
@@ -279,6 +283,8 @@ pub struct Imp {
     pub tmpn: u64,
     /// reuse the CPU object across `S` commands when the memory size allows
     pub reuse: bool,
+    /// the state installed last (register sweeps restart from it)
+    pub last: Option<St>,
 }
 
 fn load_regs(c: &mut CPU, s: &St) {
@@ -384,7 +390,7 @@ pub fn state_reply(c: &CPU, cyc: u32) -> String {
 
 impl Imp {
     pub fn new(tmpdir: &str) -> Imp {
-        Imp { cpu: CPU::new(0), base: vec![], cache: vec![], tmpdir: tmpdir.to_string(), tmpn: 0, reuse: true }
+        Imp { cpu: CPU::new(0), base: vec![], cache: vec![], tmpdir: tmpdir.to_string(), tmpn: 0, reuse: true, last: None }
     }
 
     fn image(&mut self, seed: u32, len: usize) -> Vec<u8> {
@@ -491,6 +497,7 @@ impl Imp {
                 self.cpu.debug.instr_in = s.dbg[3];
                 self.cpu.debug.string = if s.stale { String::from("0xSTALE") } else { String::new() };
                 self.base = img;
+                self.last = Some((**s).clone());
                 "ok".into()
             }
             Cmd::SR(s) => {
@@ -521,6 +528,7 @@ impl Imp {
                 self.cpu.debug.instr_in = s.dbg[3];
                 self.cpu.debug.string = if s.stale { String::from("0xSTALE") } else { String::new() };
                 self.base = img;
+                self.last = Some((**s).clone());
                 "ok".into()
             }
             Cmd::P(s) => {
@@ -620,6 +628,63 @@ impl Imp {
             Cmd::Nap(ms) => {
                 std::thread::sleep(std::time::Duration::from_millis(*ms as u64));
                 "ok".into()
+            }
+            Cmd::SWR { which, blk, nblk, fmask } => {
+                let Some(s0) = self.last.clone() else { return "bad-op".into() };
+                #[inline]
+                fn mix(h: u64, v: u64) -> u64 {
+                    (h ^ v).wrapping_mul(0x100000001B3)
+                }
+                let per = 65536 / *nblk;
+                let pc0 = s0.pc;
+                let code: Vec<(usize, u8)> =
+                    (0..4u16).map(|k| (pc0.wrapping_add(k) as usize, self.cpu.bus.read_byte(pc0.wrapping_add(k)))).collect();
+                let init = 0xcbf29ce484222325u64;
+                let (mut h1, mut hf, mut h3, mut h4, mut h5) = (init, init, init, init, init);
+                for k in 0..per {
+                    let v = (*blk * per + k) as u16;
+                    load_regs(&mut self.cpu, &s0);
+                    self.set_ctl(&s0, false);
+                    {
+                        let r = &mut self.cpu.reg;
+                        match which {
+                            0 => { r.b = (v >> 8) as u8; r.c = v as u8 }
+                            1 => { r.d = (v >> 8) as u8; r.e = v as u8 }
+                            2 => { r.h = (v >> 8) as u8; r.l = v as u8 }
+                            3 => { r.ixh = (v >> 8) as u8; r.ixl = v as u8 }
+                            4 => { r.iyh = (v >> 8) as u8; r.iyl = v as u8 }
+                            5 => r.sp = v,
+                            6 => r.pc = v,
+                            _ => { r.a = (v >> 8) as u8; r.flags.set_from_byte(v as u8) }
+                        }
+                    }
+                    if *which != 6 {
+                        let m = self.cpu.bus.verif_mem_mut();
+                        for (a, b) in &code {
+                            if *a < m.len() {
+                                m[*a] = *b;
+                            }
+                        }
+                    }
+                    let cyc = self.cpu.execute();
+                    let r = &self.cpu.reg;
+                    let t = &self.cpu.alt;
+                    for x in [r.a, r.b, r.c, r.d, r.e, r.h, r.l, r.ixh, r.ixl, r.iyh, r.iyl, r.i] {
+                        h1 = mix(h1, x as u64);
+                    }
+                    h1 = mix(h1, r.sp as u64);
+                    for x in [t.a, t.flags.to_byte(), t.b, t.c, t.d, t.e, t.h, t.l] {
+                        h1 = mix(h1, x as u64);
+                    }
+                    hf = mix(hf, (r.flags.to_byte() & fmask) as u64);
+                    h3 = mix(mix(h3, r.pc as u64), r.sp as u64);
+                    h4 = mix(h4, cyc as u64);
+                    let c = self.cpu.verif_ctl();
+                    h5 = mix(mix(mix(mix(mix(mix(h5, c.halt as u64), c.iff1 as u64), c.iff2 as u64), c.im as u64),
+                        match c.int { None => 0x100, Some(b) => b as u64 }), c.nmi as u64);
+                }
+                let ck = self.cpu.bus.verif_mem().iter().fold(init, |h, b| mix(h, *b as u64));
+                format!("H {:016X} {:016X} {:016X} {:016X} - {:016X}", mix(h1, ck), hf, h3, h4, h5)
             }
             Cmd::SF(n8) => {
                 self.cpu.set_freq(*n8 as f32 / 8.0);
